@@ -167,6 +167,10 @@ fn integers(ctx: &mut Ctx) {
             expect_rows(ctx, &Case::owned(vec![], inp(format!("{bad} {d}"))), "after-a-malformed-number", n, vec![v.clone()]);
             expect_rows(ctx, &Case::owned(vec!["--select=.=v".into(), "--unique".into()], inp(format!("{bad}\n{d} {bad} {d}\n"))), "between-malformed-numbers", n, vec![V::Obj(vec![("v".into(), v.clone())])]);
         }
+        // the same value written with leading zeros (more than 20 characters): jawk reads such tokens, the value is the same
+        let padded = if n < 0 { format!("-{:0>24}", n.unsigned_abs()) } else { format!("{:0>24}", n) };
+        expect_rows(ctx, &Case::owned(vec![], inp(padded.clone())), "zero-padded-spelling", n, vec![v.clone()]);
+        expect_rows(ctx, &Case::owned(vec!["--select=(parse .)=p".into()], inp(format!("\"{padded}\""))), "zero-padded-through-parse", n, vec![V::Obj(vec![("p".into(), v.clone())])]);
         // the integer written on the command line: as a variable, a macro, a literal selection, inside a filter
         ctx.guard("integer-on-the-command-line");
         expect_rows(
@@ -248,6 +252,8 @@ fn nas_strings(tier: Tier) -> Vec<String> {
     mant.push("123456789012345678901234567890123456789012345678901234567890".into());
     mant.push("18446744073709551616".into());
     mant.push("9007199254740993".into());
+    // spellings without a digit on one side of the point
+    let mut dotted: Vec<String> = [".5", "-.5", "+.25", "5.", ".125e2", "-.0", ".75", "0.75", ".5e-1", "00.50"].iter().map(|s| s.to_string()).collect();
     let mut out: Vec<String> = Vec::new();
     let scales = [0usize, 1, 2, 17, 40];
     let exps = ["", "e0", "e1", "e-1", "E+100", "e-100"];
@@ -307,6 +313,7 @@ fn nas_strings(tier: Tier) -> Vec<String> {
         out.push(format!("-25{}", "0".repeat(k)));
         out.push(format!("-2.5e{}", k + 1));
     }
+    out.append(&mut dotted);
     out.sort();
     out.dedup();
     out
